@@ -162,10 +162,14 @@ def inject(c):
                 slot = "arg"
                 exp["slot"] = "arg"
             else:
-                meta = A.Meta("dev9", A.Args([], [["opt", e]], False))
+                # keyword option, or a positional one (tolerated with a warning when well-formed), alone or before a keyword option
+                form = r[6] % 3
+                oargs = [A.Args([], [["opt", e]], False), A.Args([e], [], False), A.Args([e], [["opt", zero]], False)][form]
+                if form:
+                    exp["slot"] = "option-positional"
                 which = r[5] % 2
                 exp["first"] = True
-                return (rebuild(items, meta, None) if which == 0 else rebuild(items, None, A.Meta("ty9", A.Args([], [["opt", e]], False)))), exp
+                return (rebuild(items, A.Meta("dev9", oargs), None) if which == 0 else rebuild(items, None, A.Meta("ty9", oargs))), exp
         arrays = [it.name for it in items[:at] if isinstance(it, A.ArrayDecl)
                   and not any(isinstance(p, A.Param) for r_ in it.rows for x in r_ for p in A.walk_prims(x))]
         if slot == "arg":
@@ -308,7 +312,7 @@ def inject(c):
         items.insert(at, A.For(vt, "lv9", A.ForList(vals, lbr, rbr), [A.Stmt("Body", A.Args([S.F1(A.Var("lv9"))], [], False), [zero])]))
         return rebuild(items), {"kind": "looptype", "slot": "loop-list", "first": at == 0}
     if fault == "include":
-        return rebuild(items), {"kind": "include", "slot": "call", "first": False, "how": r[0] % 11, "at": at}
+        return rebuild(items), {"kind": "include", "slot": "call", "first": False, "how": r[0] % 11, "at": at, "via": (r[0] // 11) % 3 == 0}
     return None
 
 
@@ -344,7 +348,15 @@ def include_fault(script, exp):
     ]
     desc, st_ = calls[how]
     items.insert(exp["at"], st_)
-    return A.Script(script.name, script.version, script.target, script.ptype, ["plainsub.xbb", "tmplsub.xbb"], items), desc
+    incs = ["plainsub.xbb", "tmplsub.xbb"]
+    if exp.get("via"):
+        # the called programs are only known through an include of an include (chip.xbb includes both files)
+        incs = ["chip.xbb"]
+        desc += " -- program included through another included file"
+    return A.Script(script.name, script.version, script.target, script.ptype, incs, items), desc
+
+
+_CHIP = 'name chip\nversion 1.0\ninclude "plainsub.xbb"\ninclude "tmplsub.xbb"\nVac | 0\n'
 
 
 def check(c):
@@ -378,6 +390,8 @@ def check(c):
                 for name, body in _SUBS[variant].items():
                     with open(os.path.join(tmpdir, name), "w", encoding="ascii", newline="") as f:
                         f.write(body)
+                with open(os.path.join(tmpdir, "chip.xbb"), "w", encoding="ascii", newline="") as f:
+                    f.write(_CHIP)
                 if variant == "A":
                     primer = os.path.join(tmpdir, "primer.xbb")
                     with open(primer, "w", encoding="ascii", newline="") as f:
